@@ -21,7 +21,7 @@ def run(tier, seed):
     rep = Report(PID, tier, seed, "proof")
     po = proof_obligations("WowVerif.Thm.C04", ["wowdrv"])
     add_proof_failures(rep, po)
-    conts = build_corpus()
+    conts = build_corpus(expanded=True)
     ok = [c for c in conts if "tokens" in c]
     d = Driver()
     # ---------------- T-gen: read expressions and opcode tables
